@@ -53,6 +53,21 @@ func c07FamilyB() []c07version {
 	}
 }
 
+// family C: two calls of one plugin; removing the second one makes the new
+// output a strict byte prefix of the old one
+func c07FamilyC() []c07version {
+	mk := func(name, body string) c07version {
+		return c07version{name, pkgFiles{"a.go": "package m\n\n" + body}}
+	}
+	types := "type S struct {\n\tA int\n\tB []string\n}\n\ntype T struct {\n\tX map[string]int\n}\n\n"
+	return []c07version{
+		mk("C1-two-calls", types+"func use(a, b *S, c, d *T) bool {\n\treturn deriveEqualA(a, b) && deriveEqualB(c, d)\n}\n"),
+		mk("C2-second-call-removed", types+"func use(a, b *S, c, d *T) bool {\n\treturn deriveEqualA(a, b)\n}\n"),
+		mk("C3-first-call-removed", types+"func use(a, b *S, c, d *T) bool {\n\treturn deriveEqualB(c, d)\n}\n"),
+		mk("C4-no-derive-calls", types+"func use(a, b *S, c, d *T) bool {\n\treturn a == b && c == d\n}\n"),
+	}
+}
+
 // remnantClass names where a truncation offset lies in a derived.gen.go.
 func remnantClass(full string, k int) string {
 	if k == 0 {
@@ -126,6 +141,7 @@ func checkC07(tier string) {
 	}
 	famA, famB := c07FamilyA(), c07FamilyB()
 	fams := []famT{
+		{"C", c07FamilyC(), func(i int) bool { return true }, true},
 		{"A", famA, func(i int) bool { return tier == "thorough" || i == 0 || i == 6 }, tier == "thorough"},
 		{"B", famB, func(i int) bool { return tier == "thorough" || i == 0 }, tier == "thorough"},
 	}
@@ -311,11 +327,11 @@ func checkC07(tier string) {
 	}
 	sort.Strings(oks)
 	rep.Cov["distinct_outcomes"] = outcomes
-	rep.Cov["rule"] = "explicit-state search: a node is the content of derived.gen.go (absent; the from-scratch output of every source version; every byte prefix k = 0..len-1 of the selected outputs, i.e. every crash point of an interrupted write of the previous or of the new output), deduplicated by SHA-256; an edge runs the real goderive once on the sources of a version with that derived.gen.go in place; oracle: exit 0, resulting bytes identical to the from-scratch output of that version (file absent when no derive calls remain); from-scratch outputs are generated three times (must not vary) and type-checked; two version families (recursive plugins with field retyping/adding, type renaming, call adding/removing, a derive result feeding another derive call whose type changes; functional plugins Sort(Keys(m)) / Fmap(..., Sort(Keys(m))) with the key type changing); non-trivial = distinct nodes"
+	rep.Cov["rule"] = "explicit-state search: a node is the content of derived.gen.go (absent; the from-scratch output of every source version; every byte prefix k = 0..len-1 of the selected outputs, i.e. every crash point of an interrupted write of the previous or of the new output), deduplicated by SHA-256; an edge runs the real goderive once on the sources of a version with that derived.gen.go in place; oracle: exit 0, resulting bytes identical to the from-scratch output of that version (file absent when no derive calls remain); from-scratch outputs are generated three times (must not vary) and type-checked; three version families (recursive plugins with field retyping/adding, type renaming, call adding/removing, a derive result feeding another derive call whose type changes; functional plugins Sort(Keys(m)) / Fmap(..., Sort(Keys(m))) with the key type changing); non-trivial = distinct nodes"
 	if tier == "thorough" {
 		rep.Cov["bound"] = "every byte prefix of every output x every version of the same family (all pairs)"
 	} else {
-		rep.Cov["bound"] = "whole-file and absent nodes x every version (all pairs); every byte prefix of the outputs of A1, A7 and B1 x {same, previous, next version}"
+		rep.Cov["bound"] = "whole-file and absent nodes x every version (all pairs); every byte prefix of the outputs of A1, A7 and B1 x {same, previous, next version}; family C (two calls of one plugin, one removed): every byte prefix x all versions"
 	}
 	rep.Cov["exhaustive"] = true
 	rep.Assume = append(rep.Assume, "a crash is modelled as 'file holds the first k bytes' for every k; torn sector writes are not modelled")
